@@ -306,6 +306,9 @@ func solverSpecs() []solverSpec {
 		{"z3-new", func(f string, t, seed int) []string {
 			return []string{"z3-new", fmt.Sprintf("-T:%d", t), fmt.Sprintf("smt.random_seed=%d", seed), f}
 		}, nil},
+		{"z3-new/0", func(f string, t, seed int) []string {
+			return []string{"z3-new", fmt.Sprintf("-T:%d", t), "smt.random_seed=0", f}
+		}, nil},
 		{"z3", func(f string, t, seed int) []string {
 			return []string{"z3", fmt.Sprintf("-T:%d", t), fmt.Sprintf("smt.random_seed=%d", seed), f}
 		}, nil},
@@ -335,7 +338,7 @@ func cleanupScratch() {
 	}
 }
 
-var solverSem = make(chan struct{}, 14)
+var solverSem = make(chan struct{}, 5)
 
 // solve races the installed solvers on a query. getValues, if non-empty, is a
 // list of terms whose values are requested when the answer is sat.
@@ -369,7 +372,7 @@ func solve(name, query string, getValues []string, timeoutS, seed int, only stri
 			if sp.fix != nil {
 				q = "(set-option :produce-models true)\n" + sp.fix(full)
 			}
-			file := fmt.Sprintf("%s.%s.smt2", base, sp.name)
+			file := fmt.Sprintf("%s.%s.smt2", base, strings.ReplaceAll(sp.name, "/", "_"))
 			os.WriteFile(file, []byte(q), 0o644)
 			args := sp.args(file, timeoutS, seed)
 			start := time.Now()
